@@ -4,7 +4,7 @@
     Gallina translations of the Go functions, regenerated from /repo on every
     run (coq/Generated.v). *)
 From Coq Require Import ZArith List Bool.
-From Hts Require Import Base.Prim Generated Model.Itf8Spec Proofs.Itf8.
+From Hts Require Import Base.Prim Generated Model.Itf8Spec Model.CramStream Proofs.Itf8 Proofs.Ltf8 Proofs.CramStream Proofs.CodecMore Proofs.CramScript Proofs.CramRoundtrip.
 Open Scope Z_scope.
 
 (** Every int32: Encode into any buffer with room for five bytes succeeds,
@@ -45,8 +45,222 @@ Theorem itf8_no_overread :
 Proof. exact itf8_no_overread_gen. Qed.
 Print Assumptions itf8_no_overread.
 
+(** Every int64: the same statement for LTF-8 (nine length classes; the
+    bytes are exactly the specified encoding, there is no insignificant part). *)
+Theorem ltf8_roundtrip :
+  forall v b0 b1 b2 b3 b4 b5 b6 b7 b8 tl rest,
+    - 2^63 <= v < 2^63 -> all_bytes rest = true ->
+    exists n out,
+      ltf8_Encode ([b0; b1; b2; b3; b4; b5; b6; b7; b8] ++ tl) v = Ok (n, out) /\
+      ltf8_Len v = Ok n /\
+      1 <= n <= 9 /\
+      skipn (Z.to_nat n) out = skipn (Z.to_nat n) ([b0; b1; b2; b3; b4; b5; b6; b7; b8] ++ tl) /\
+      firstn (Z.to_nat n) out = ltf8_spec_encode v /\
+      ltf8_Decode (firstn (Z.to_nat n) out ++ rest) = Ok (v, n, true).
+Proof. exact ltf8_roundtrip_gen. Qed.
+Print Assumptions ltf8_roundtrip.
+
+(** LTF-8 Decode is the specification's decoder on every byte string (all nine
+    first-byte classes, any length): never panics, same value, count, flag. *)
+Theorem ltf8_decode_is_spec :
+  forall bs, all_bytes bs = true -> ltf8_Decode bs = Ok (ltf8_spec_decode bs).
+Proof. exact ltf8_Decode_spec. Qed.
+Print Assumptions ltf8_decode_is_spec.
+
+Theorem ltf8_no_overread :
+  forall bs, all_bytes bs = true ->
+    exists v n ok,
+      ltf8_Decode bs = Ok (v, n, ok) /\
+      (bs = [] -> n = 0 /\ ok = false) /\
+      (bs <> [] -> n = ltf8_spec_n (hd 0 bs) /\ ok = (n <=? zlen bs)) /\
+      (ok = true -> ltf8_Decode (firstn (Z.to_nat n) bs) = Ok (v, n, true)) /\
+      (ok = false -> v = 0).
+Proof. exact ltf8_no_overread_gen. Qed.
+Print Assumptions ltf8_no_overread.
+
+(** Encode into a destination of ANY length, for every int32 / int64: it
+    panics (index out of range, at the first statement of the arm, so nothing
+    has been written) exactly when the destination is shorter than Len;
+    otherwise it returns Len, has written the encoding over the first Len
+    bytes and has left every other byte alone.  [itf8_wire v] is the
+    specified encoding except that a fifth byte carries all eight low bits of
+    the value (its canonical form is the specified encoding: itf8_roundtrip). *)
+Theorem itf8_encode_any_buffer :
+  forall v buf, - 2^31 <= v < 2^31 ->
+    itf8_Encode buf v =
+      if zlen buf <? itf8_spec_len (v mod 2^32) then Panic 1
+      else Ok (itf8_spec_len (v mod 2^32), itf8_wire v ++ skipn (Z.to_nat (itf8_spec_len (v mod 2^32))) buf).
+Proof. exact itf8_Encode_any. Qed.
+Print Assumptions itf8_encode_any_buffer.
+
+Theorem ltf8_encode_any_buffer :
+  forall v buf, - 2^63 <= v < 2^63 ->
+    ltf8_Encode buf v =
+      if zlen buf <? ltf8_spec_len (v mod 2^64) then Panic 1
+      else Ok (ltf8_spec_len (v mod 2^64), ltf8_spec_encode v ++ skipn (Z.to_nat (ltf8_spec_len (v mod 2^64))) buf).
+Proof. exact ltf8_Encode_any. Qed.
+Print Assumptions ltf8_encode_any_buffer.
+
+(** The round trip through a destination of any sufficient length (the
+    statement of itf8_roundtrip / ltf8_roundtrip without the explicit 5 / 9
+    byte prefix): Encode returns Len, keeps the length of the destination,
+    changes only the first Len bytes, these are the specified encoding, and
+    followed by anything they decode to the value. *)
+Theorem itf8_roundtrip_any_buffer :
+  forall v buf rest,
+    - 2^31 <= v < 2^31 -> all_bytes rest = true -> itf8_spec_len (v mod 2^32) <= zlen buf ->
+    exists out,
+      itf8_Encode buf v = Ok (itf8_spec_len (v mod 2^32), out) /\
+      zlen out = zlen buf /\
+      skipn (Z.to_nat (itf8_spec_len (v mod 2^32))) out = skipn (Z.to_nat (itf8_spec_len (v mod 2^32))) buf /\
+      itf8_canon (firstn (Z.to_nat (itf8_spec_len (v mod 2^32))) out) = itf8_spec_encode v /\
+      itf8_Decode (firstn (Z.to_nat (itf8_spec_len (v mod 2^32))) out ++ rest) = Ok (v, itf8_spec_len (v mod 2^32), true).
+Proof. exact itf8_roundtrip_any. Qed.
+Print Assumptions itf8_roundtrip_any_buffer.
+
+Theorem ltf8_roundtrip_any_buffer :
+  forall v buf rest,
+    - 2^63 <= v < 2^63 -> all_bytes rest = true -> ltf8_spec_len (v mod 2^64) <= zlen buf ->
+    exists out,
+      ltf8_Encode buf v = Ok (ltf8_spec_len (v mod 2^64), out) /\
+      zlen out = zlen buf /\
+      skipn (Z.to_nat (ltf8_spec_len (v mod 2^64))) out = skipn (Z.to_nat (ltf8_spec_len (v mod 2^64))) buf /\
+      firstn (Z.to_nat (ltf8_spec_len (v mod 2^64))) out = ltf8_spec_encode v /\
+      ltf8_Decode (firstn (Z.to_nat (ltf8_spec_len (v mod 2^64))) out ++ rest) = Ok (v, ltf8_spec_len (v mod 2^64), true).
+Proof. exact ltf8_roundtrip_any. Qed.
+Print Assumptions ltf8_roundtrip_any_buffer.
+
+(** Every spelling of a value that the specification allows for its length
+    class (any high nibble in a fifth byte), followed by anything, decodes to
+    the value. *)
+Theorem itf8_decode_accepts_any_fifth_nibble :
+  forall v enc rest,
+    - 2^31 <= v < 2^31 -> all_bytes enc = true -> all_bytes rest = true ->
+    zlen enc = itf8_spec_len (v mod 2^32) -> itf8_canon enc = itf8_spec_encode v ->
+    itf8_Decode (enc ++ rest) = Ok (v, itf8_spec_len (v mod 2^32), true).
+Proof. exact itf8_Decode_accepts. Qed.
+Print Assumptions itf8_decode_accepts_any_fifth_nibble.
+
+(** Different values never share an encoding. *)
+Theorem codec_encodings_injective :
+  (forall v w, - 2^31 <= v < 2^31 -> - 2^31 <= w < 2^31 -> itf8_spec_encode v = itf8_spec_encode w -> v = w) /\
+  (forall v w, - 2^63 <= v < 2^63 -> - 2^63 <= w < 2^63 -> ltf8_spec_encode v = ltf8_spec_encode w -> v = w).
+Proof. exact (conj itf8_encode_injective ltf8_encode_injective). Qed.
+Print Assumptions codec_encodings_injective.
+
+(** The stream readers of cram.go over a source that holds the bytes [s] and
+    then reports the error [tail] (io.EOF = 1 or any other non-nil error), on
+    a reader that has not failed: errorReader.itf8 takes exactly
+    min(announced, available) bytes from the source, where the first byte
+    announces the length (one byte is needed to learn it); it reports no
+    error exactly when the announced bytes are there, and then returns what
+    Decode returns on the input; otherwise it returns 0 with the source's
+    error (ErrUnexpectedEOF when the source said EOF in mid-item). *)
+Theorem stream_reads_exactly_n :
+  forall s tail, all_bytes s = true -> tail <> 0 ->
+    exists v r',
+      er_itf8 (mkER s tail 0) = Ok (v, r') /\
+      let n := announced itf8_spec_n s in
+      er_rest r' = skipn (Z.to_nat (Z.min n (zlen s))) s /\
+      er_tail r' = tail /\
+      (er_err r' = 0 <-> n <= zlen s) /\
+      (n <= zlen s -> itf8_Decode s = Ok (v, n, true)) /\
+      (zlen s < n -> v = 0 /\ (er_err r' = tail \/ (tail = E_EOF /\ er_err r' = E_UEOF))).
+Proof. exact stream_itf8_exact. Qed.
+Print Assumptions stream_reads_exactly_n.
+
+Theorem stream_ltf8_reads_exactly_n :
+  forall s tail, all_bytes s = true -> tail <> 0 ->
+    exists v r',
+      er_ltf8 (mkER s tail 0) = Ok (v, r') /\
+      let n := announced ltf8_spec_n s in
+      er_rest r' = skipn (Z.to_nat (Z.min n (zlen s))) s /\
+      er_tail r' = tail /\
+      (er_err r' = 0 <-> n <= zlen s) /\
+      (n <= zlen s -> ltf8_Decode s = Ok (v, n, true)) /\
+      (zlen s < n -> v = 0 /\ (er_err r' = tail \/ (tail = E_EOF /\ er_err r' = E_UEOF))).
+Proof. exact stream_ltf8_exact. Qed.
+Print Assumptions stream_ltf8_reads_exactly_n.
+
+(** Once the reader has failed, a call reads nothing and keeps the error. *)
+Theorem stream_error_is_sticky :
+  forall r, er_err r <> 0 -> er_itf8 r = Ok (0, r) /\ er_ltf8 r = Ok (0, r).
+Proof. exact (fun r H => conj (er_itf8_sticky r H) (er_ltf8_sticky r H)). Qed.
+Print Assumptions stream_error_is_sticky.
+
+(** itf8slice never blocks; it panics only when the count it read is
+    negative (make([]int32, n); that input is C11's business); otherwise
+    either it consumed exactly the count and that many complete items and
+    returns their values, or it failed having consumed all of an input that
+    ends before or inside an item that was still owed. *)
+Theorem stream_slice_reads_exactly_items :
+  forall s tail, all_bytes s = true -> tail <> 0 ->
+    match er_itf8slice (mkER s tail 0) with
+    | Ok (vals, r') =>
+      er_tail r' = tail /\
+      ((er_err r' = 0 /\ exists pre, s = pre ++ er_rest r' /\ itf8_items pre (zlen vals :: vals))
+       \/ (er_err r' <> 0 /\ er_rest r' = [] /\
+           exists pre part c, s = pre ++ part /\ itf8_short part /\
+             (itf8_items pre (c :: vals) /\ zlen vals < c \/ pre = [] /\ vals = [])))
+    | Panic _ => exists pre rest c, s = pre ++ rest /\ itf8_items pre [c] /\ c < 0
+    | _ => False
+    end.
+Proof. exact stream_itf8slice_exact. Qed.
+Print Assumptions stream_slice_reads_exactly_items.
+
+(** Any script of calls (0 = itf8, 1 = ltf8, other = itf8slice) on one reader
+    over any input: no call blocks or returns a model error; a panic needs an
+    itf8slice call (negative count); the trace of (values, error, bytes
+    consumed so far) has one entry per call, the counter never decreases and
+    never passes the length of the input, and after the first failure neither
+    the error nor the counter changes any more. *)
+Theorem stream_script_invariant :
+  forall ops s tail, all_bytes s = true -> tail <> 0 ->
+    match er_run ops (mkER s tail 0) (zlen s) with
+    | Ok steps => length steps = length ops /\ script_ok (zlen s) 0 0 steps
+    | Panic _ => exists op, In op ops /\ op <> 0 /\ op <> 1
+    | _ => False
+    end.
+Proof. exact er_run_never_blocks. Qed.
+Print Assumptions stream_script_invariant.
+
+(** Write, then read from a stream: the bytes Encode writes for any int32
+    ([itf8_wire v], see itf8_encode_any_buffer) or int64, followed by anything,
+    are read back by the stream readers as the value, and the reader stops
+    exactly behind them. *)
+Theorem stream_roundtrip :
+  (forall v rest tail, - 2^31 <= v < 2^31 -> all_bytes rest = true -> tail <> 0 ->
+     er_itf8 (mkER (itf8_wire v ++ rest) tail 0) = Ok (v, mkER rest tail 0)) /\
+  (forall v rest tail, - 2^63 <= v < 2^63 -> all_bytes rest = true -> tail <> 0 ->
+     er_ltf8 (mkER (ltf8_spec_encode v ++ rest) tail 0) = Ok (v, mkER rest tail 0)).
+Proof. exact (conj stream_itf8_roundtrip stream_ltf8_roundtrip). Qed.
+Print Assumptions stream_roundtrip.
+
+(** An array of any int32 values written as count followed by the elements is
+    read back by itf8slice as exactly those elements (any length below 2^31,
+    by induction on the list), leaving what follows untouched. *)
+Theorem stream_slice_roundtrip :
+  forall vs rest tail,
+    Forall (fun v => - 2^31 <= v < 2^31) vs -> zlen vs < 2^31 -> all_bytes rest = true -> tail <> 0 ->
+    er_itf8slice (mkER (itf8_array vs ++ rest) tail 0) = Ok (vs, mkER rest tail 0).
+Proof. exact stream_itf8slice_roundtrip. Qed.
+Print Assumptions stream_slice_roundtrip.
+
 (** Non-vacuity: a concrete five-byte case. *)
 Example itf8_minus5 :
   itf8_Encode [0; 0; 0; 0; 0] (-5) = Ok (5, [255; 255; 255; 255; 251])
   /\ itf8_Decode [255; 255; 255; 255; 251] = Ok (-5, 5, true).
 Proof. split; vm_compute; reflexivity. Qed.
+
+(** Non-vacuity: the nine-byte LTF-8 case whose second byte reaches the sign bit. *)
+Example ltf8_minus5 :
+  ltf8_Encode [0; 0; 0; 0; 0; 0; 0; 0; 0] (-5) = Ok (9, [255; 255; 255; 255; 255; 255; 255; 255; 251])
+  /\ ltf8_Decode [255; 255; 255; 255; 255; 255; 255; 255; 251; 7] = Ok (-5, 9, true).
+Proof. split; vm_compute; reflexivity. Qed.
+
+(** Non-vacuity: a stream holding the two-byte item 0x80 0x05, then a cut three-byte item. *)
+Example stream_two_items :
+  er_itf8 (mkER [128; 5; 192; 1] 1 0) = Ok (5, mkER [192; 1] 1 0)
+  /\ er_itf8 (mkER [192; 1] 1 0) = Ok (0, mkER [] 1 2)
+  /\ er_itf8slice (mkER [2; 7; 129; 0; 9] 1 0) = Ok ([7; 256], mkER [9] 1 0).
+Proof. repeat split; vm_compute; reflexivity. Qed.
